@@ -382,4 +382,11 @@ def dec2ddm(dec):""", note='sign flag dropped in dec2dms: wrong for -1 < x < 0')
     dict(id='sv-va-swap', props=['C19'], file='geodepy/survey.py', old="            zenith_angle = radians(270 - zenith_angle)", new="            zenith_angle = radians(zenith_angle - 180)", note='sin/cos swapped for zenith angles in 180..360'),
     dict(id='sv-wrap', props=['C19'], file='geodepy/convert.py', old="        if theta >= 360:\n            theta -= 360", new="        if theta > 360:\n            theta -= 360", note='baseline defect restored: bearing 360.0'),
     dict(id='sv-humidity', props=['C19'], file='geodepy/survey.py', old="    if rel_humidity is not None:\n        wet_temp = dry_temp", new="    if rel_humidity:\n        wet_temp = dry_temp", note='0 % humidity read as "use the wet bulb"'),
+    dict(id='pure-race-scratch', props=['C09'], edits=[
+        dict(file='geodepy/convert.py', old="    A = rect_radius(ellipsoid)\n    a = alpha_coeff(ellipsoid)\n    lat = radians(lat)\n    # Calculate Zone",
+             new="    A = rect_radius(ellipsoid)\n    a = alpha_coeff(ellipsoid)\n    _SCRATCH['lat'] = radians(lat)\n    # Calculate Zone"),
+        dict(file='geodepy/convert.py', old="    # Conformal Latitude\n    sigx = (ellipsoid.ecc1 * tan(lat)) / sqrt(1 + (tan(lat) ** 2))",
+             new="    # Conformal Latitude\n    lat = _SCRATCH['lat']\n    sigx = (ellipsoid.ecc1 * tan(lat)) / sqrt(1 + (tan(lat) ** 2))"),
+        dict(file='geodepy/convert.py', old="def geo2grid(lat, lon, zone=0, ellipsoid=grs80, prj=utm):", new="_SCRATCH = {}\n\n\ndef geo2grid(lat, lon, zone=0, ellipsoid=grs80, prj=utm):")],
+         note='geo2grid parks the latitude in a module-level scratch dict between two statements: wrong only when another thread runs geo2grid in between'),
 ]
